@@ -59,6 +59,18 @@ func (m *Mutex) Unlock() {
 		panic("sync: unlock of unlocked mutex")
 	}
 	m.locked = false
+	released()
+}
+
+// ReleasePoints makes every release (Unlock / RUnlock) a scheduling point as well. Off by default: a release commutes
+// with the releasing thread's next local steps, unless those steps touch shared data that the critical section handed
+// out by reference - a scenario that looks for exactly that turns it on.
+var ReleasePoints bool
+
+func released() {
+	if ReleasePoints {
+		vsched.Yield("released")
+	}
 }
 
 // RWMutex is a modelled sync.RWMutex with Go's writer preference: a writer
@@ -101,6 +113,7 @@ func (m *RWMutex) RUnlock() {
 		panic("sync: RUnlock of unlocked RWMutex")
 	}
 	m.readers--
+	released()
 }
 
 func (m *RWMutex) Lock() {
@@ -143,6 +156,7 @@ func (m *RWMutex) Unlock() {
 		panic("sync: Unlock of unlocked RWMutex")
 	}
 	m.writer = false
+	released()
 }
 
 func (m *RWMutex) RLocker() Locker { return (*rlocker)(m) }
